@@ -731,12 +731,10 @@ def observable(cfg, recs):
             # races with the server and is not compared
             # (nor which of its frames the server had read when the run ended; a consumer that is cancelled by a timer leaves
             # at a moment that differs by a few loop steps between the variants, so not even its item count is compared)
-            if (r.terminal[2] or {}).get("cancelled_pending_step"):
-                # (cancelled by its timer while a step was pending: whether the connection had been opened by then is a matter
-                # of a few loop steps as well - thorough soak, seed 77)
+            if cfg["subs"][r.index].get("cancel_after") is not None:
+                # (a consumer with a cancel timer: whether the timer caught it - and whether the connection had been opened by
+                # then - is a matter of a few loop steps as well; thorough soaks, seeds 77 and 103)
                 out.append({"terminal": "left"})
-            elif cfg["subs"][r.index].get("cancel_after") is not None:
-                out.append({"terminal": "left", "subprotocol": r.opened[1] if r.opened else None})
             else:
                 out.append({"yields": ys, "terminal": "left", "subprotocol": r.opened[1] if r.opened else None, "headers": hs})
             continue
